@@ -59,3 +59,9 @@ def f18_minimal_imap(v, f):
     """observed edge set is exactly what the recorded algorithm defect predicts"""
     d = v.get("detail") or {}
     return v.get("site") == "minimal_imap" and "f18_model_edges" in d and sorted(map(list, v["observed"])) == d["f18_model_edges"]
+
+
+@predicate
+def f05_closure(v, f):
+    """observed closure / verdict is exactly what the recorded contraction-rule defect predicts"""
+    return bool((v.get("detail") or {}).get("f05_model_match"))
